@@ -291,8 +291,12 @@ def finish_check(pid, tier, results, t0, *, checker_cmd, not_covered, trusted_ex
       "wall_s": round(time.time() - t0, 2),
       "violations": violations,
   }
-  os.makedirs(os.path.join(VERIF, "evidence"), exist_ok=True)
-  with open(os.path.join(VERIF, "evidence", pid + ".json"), "w") as fh:
+  evdir = os.path.join(VERIF, "evidence")
+  if os.environ.get("PYVC_MUTATE"):
+    # self-test runs under an in-memory mutation must not overwrite the real evidence
+    evdir = os.path.join(VERIF, "out", "mutant_evidence")
+  os.makedirs(evdir, exist_ok=True)
+  with open(os.path.join(evdir, pid + ".json"), "w") as fh:
     json.dump(ev, fh, indent=1, default=str)
   for l in kf_lines:
     print(l)
